@@ -8,6 +8,7 @@ from .. import paths, waiters
 from ..core import FUNC, call_attr, calls_in, const, dotted, kwarg, is_const, norm, text, walk_local
 
 EXPLANATION = [
+    'C09.teardown-contained: each abort() in the loops of ChannelManager.on_disconnection is inside a try / except Exception (no re-raise) within the loop body: one failing close listener does not stop the teardown of the link.',
     'C09.disconnect-check-act: ClassicChannel / LeCreditBasedChannel.disconnect have no await between the state test and the statement that changes the state (test and start of the procedure are one event-loop step).',
     'C09.disconnect-request-answered: ClassicChannel / LeCreditBasedChannel.on_disconnection_request send exactly one Disconnection Response and release the channel on every path (no silent discard of a request the manager routed to the channel).',
     'C09.reject-ends-open: ChannelManager.on_l2cap_command_reject removes the rejected request from le_coc_requests (keyed by connection and identifier) and tells the channel, whose handler fails the pending connection_result: a rejected open ends.',
@@ -1174,7 +1175,35 @@ def disconnect_check_act(ctx):
         R.check(not aw, rule, f'{cn}.disconnect', 'no suspension between the state test and the state change', f'disconnect() awaits (`{norm(aw[0])[:50] if aw else ""}`) after it has tested the state and before it changes it: a Disconnection Request from the peer handled during that suspension closes the channel, then the procedure starts anyway and its waiter is never released (the caller hangs)', p.loc(aw[0]) if aw else p.loc(fn))
 
 
+def teardown_contained(ctx):
+    """ChannelManager.on_disconnection closes every channel of the lost link: abort() runs application listeners ('close'),
+    so each abort() inside the loops is contained (try / except Exception without re-raise) - one failing listener does not
+    leave the remaining channels open and the per-connection tables in place."""
+    R, p = ctx.r, ctx.p
+    rule = 'C09.teardown-contained'
+    fn = p.find(f'{CM}.on_disconnection')
+    if fn is None:
+        R.bad(rule, f'{CM}.on_disconnection', 'anchor missing')
+        return
+    aborts = [c for c in calls_in(fn) if call_attr(c) == 'abort']
+    R.check(len(aborts) >= 2, rule, f'{CM}.on_disconnection | aborts', f'{len(aborts)} abort() calls', f'only {len(aborts)} abort() calls found', p.loc(fn))
+    for i, c in enumerate(aborts):
+        ok = False
+        a, prev = getattr(c, '_parent', None), c
+        while a is not None and a is not fn:
+            if isinstance(a, ast.Try) and any(prev is s_ for s_ in a.body):
+                for h in a.handlers:
+                    names = {'<bare>'} if h.type is None else {norm(e).split('.')[-1] for e in (h.type.elts if isinstance(h.type, ast.Tuple) else [h.type])}
+                    if names & {'Exception', 'BaseException', '<bare>'} and not any(isinstance(x, ast.Raise) for x in ast.walk(h)):
+                        ok = True
+            if isinstance(a, (ast.For, ast.While)):
+                break
+            prev, a = a, getattr(a, '_parent', None)
+        R.check(ok, rule, f'{CM}.on_disconnection | abort #{i + 1} ({norm(c)})', 'contained inside the loop', f'`{norm(c)}` is not contained inside its loop: a close listener that raises on one channel ends the teardown - the other channels of the link stay open (anything waiting on them is never released) and identifiers / pending tables of the connection are never removed', p.loc(c))
+
+
 RULES = [
+    ('C09.teardown-contained', teardown_contained),
     ('C09.disconnect-check-act', disconnect_check_act),
     ('C09.disconnect-request-answered', disconnect_request_answered),
     ('C09.reject-ends-open', reject_ends_open),
